@@ -672,6 +672,14 @@ class Interp:
                 if fn.attr == "discard":
                     base.discard(args[0])  # type: ignore[union-attr]
                     return None
+                if fn.attr == "remove":
+                    if args[0] not in base:
+                        raise Raised(ExcVal("KeyError", None, {"expr": src(e)}, e.lineno))
+                    base.remove(args[0])  # type: ignore[union-attr]
+                    return None
+                if fn.attr == "clear":
+                    base.clear()  # type: ignore[union-attr]
+                    return None
                 if fn.attr == "add":
                     base.add(args[0])  # type: ignore[union-attr]
                     return None
@@ -689,7 +697,7 @@ class Interp:
             if isinstance(base, str) and fn.attr in ("lower", "upper", "strip", "lstrip", "rstrip", "replace", "startswith",
                                                      "endswith", "split", "format", "join", "title", "capitalize"):
                 return getattr(base, fn.attr)(*args, **kwargs)
-            if isinstance(base, list) and fn.attr in ("append", "extend", "insert", "pop", "index", "count", "copy", "sort", "reverse"):
+            if isinstance(base, list) and fn.attr in ("append", "extend", "insert", "pop", "index", "count", "copy", "sort", "reverse", "remove", "clear"):
                 return getattr(base, fn.attr)(*args, **kwargs)
             if isinstance(base, tuple) and fn.attr in ("index", "count"):
                 return getattr(base, fn.attr)(*args)
@@ -749,6 +757,10 @@ class Interp:
         amap: Dict[str, Any] = {names[0]: recv}
         for n_, v_ in zip(names[1:], args):
             amap[n_] = v_
+        if len(args) > len(names) - 1:
+            if a.vararg is None:
+                raise Unmodelled(f"too many positional args for {g.qualname}")
+            amap["*"] = list(args[len(names) - 1:])
         amap.update(kwargs)
         return self.call(g, amap)
 
